@@ -238,7 +238,8 @@ type violationFile struct {
 func relevantEnv() map[string]string {
 	out := map[string]string{}
 	for _, kv := range os.Environ() {
-		if strings.HasPrefix(kv, "VERIF_") && !strings.HasPrefix(kv, "VERIF_OUT") && !strings.HasPrefix(kv, "VERIF_SCRATCH") && !strings.HasPrefix(kv, "VERIF_REPLAY") {
+		if strings.HasPrefix(kv, "VERIF_") && !strings.HasPrefix(kv, "VERIF_OUT") && !strings.HasPrefix(kv, "VERIF_SCRATCH") && !strings.HasPrefix(kv, "VERIF_REPLAY") &&
+			!strings.HasPrefix(kv, "VERIF_BIN") && !strings.HasPrefix(kv, "VERIF_SHARD") {
 			i := strings.IndexByte(kv, '=')
 			out[kv[:i]] = kv[i+1:]
 		}
@@ -319,6 +320,23 @@ func RunProperty(t *testing.T, spec *Spec) {
 		var vf violationFile
 		if err := json.Unmarshal(data, &vf); err != nil {
 			t.Fatalf("replay: %v", err)
+		}
+		var pc struct {
+			Probe string `json:"probe"`
+		}
+		if json.Unmarshal(vf.Case, &pc) == nil && pc.Probe != "" {
+			pf := spec.Probes[pc.Probe]
+			if pf == nil {
+				t.Fatalf("replay: unknown probe %q", pc.Probe)
+			}
+			if rep, detail := pf(); rep {
+				col.sf.Violations++
+				col.saveViolation(vf.Case, fmt.Errorf("probe %s reproduces: %s", pc.Probe, detail))
+				fmt.Printf("REPLAY reproduces: probe %s: %s\n", pc.Probe, detail)
+				t.Fatalf("replay reproduces")
+			}
+			fmt.Printf("REPLAY passes\n")
+			return
 		}
 		cse := spec.New()
 		if err := json.Unmarshal(vf.Case, cse); err != nil {
